@@ -62,6 +62,8 @@ def mkobj(**kw):
 
 def reset(hass):
     RECORDS.clear()
+    STATE_AT.clear()
+    OBSERVER[0] = None
     DYN.clear()
     HASS[0] = hass
 
@@ -126,6 +128,7 @@ def ok(i, v, kind="val", fresh=False):
     else:
         r = pyval(v)
     RECORDS[i] = {"ok": r}
+    _snap(i)
 
 
 def name_of(s):
@@ -135,3 +138,19 @@ def name_of(s):
 
 def exc(i, e):
     RECORDS[i] = {"exc": type(e).__name__, "msg": str(e)[:120]}
+    _snap(i)
+
+
+OBSERVER = [None]   # set by the worker: () -> observation of the whole state, taken the moment a step reports
+STATE_AT = {}
+
+
+def _snap(i):
+    if OBSERVER[0] is not None:
+        STATE_AT[i] = OBSERVER[0]()
+
+
+def begin(i):
+    """called by grouped steps (several operations in one function body): step i starts now -> logical time i+1"""
+    if CLOCK[0] is not None:
+        CLOCK[0].tick = i + 1
